@@ -71,6 +71,7 @@ type world struct {
 	or *oracle
 
 	capAsserted bool // the per-host block cap is asserted in this run
+	contention  bool // contention swarm profile (see newWorld)
 }
 
 const forever = int(^uint(0) >> 1)
@@ -289,7 +290,14 @@ func newWorld(r *core.R) *world {
 	w.st = store.New(r, w.s)
 	src := r.Src
 
+	// contention profile: one tiny pool, many hosts, stalled claimers and long clock jumps - the block
+	// claim / reclaim / release windows that C22 is about
+	w.contention = src.Chance(300, "contention_profile")
+	r.Cfg("contention_profile", w.contention)
 	nh := src.Range(2, 4, "hosts")
+	if w.contention && nh < 3 {
+		nh = 3
+	}
 	for i := 0; i < nh; i++ {
 		h := fmt.Sprintf("h%d", i)
 		w.hosts = append(w.hosts, h)
@@ -324,10 +332,17 @@ func newWorld(r *core.R) *world {
 
 	// pools: small, so that contention, exhaustion, borrowing and reclaim happen
 	np := src.Range(1, 3, "pools")
+	if w.contention {
+		np = 1
+	}
 	bases := []string{"10.0.0.0", "10.0.1.0", "10.0.2.0"}
 	for i := 0; i < np; i++ {
 		bs := src.Range(29, 31, "pool_blocksize")
 		plen := bs - src.Range(1, 2, "pool_blocks_log2")
+		if w.contention {
+			bs = src.Range(30, 31, "pool_blocksize_c")
+			plen = bs - 1 // two blocks for three or more hosts
+		}
 		pv := &poolVersion{name: fmt.Sprintf("pool%d", i), cidr: mustCIDR(fmt.Sprintf("%s/%d", bases[i], plen)), blockSize: bs, from: 0, to: forever,
 			uses: []v3.IPPoolAllowedUse{v3.IPPoolAllowedUseWorkload, v3.IPPoolAllowedUseTunnel}}
 		switch src.Weighted([]int{6, 2, 2, 1}, "pool_kind") {
